@@ -151,33 +151,44 @@ def _cont(cid, k, subs, name=None, default=None, policy="subset", minreq=False):
 class C08(Property):
     id = "C08"
     title = "The element tree stays a tree: parent, children, root and path agree"
-    proof_module = "Proofs.C08Step"
+    proof_module = "Proofs.C08All"
     theorems = [
+        "Flatland.C08.Proofs.c08_full",
+        "Flatland.C08.Proofs.inv_init",
         "Flatland.C08.Proofs.treeinv_of_wp",
+        "Flatland.C08.Proofs.navinv_of_wp",
         "Flatland.C08.Proofs.stepAt_wp",
-        "Flatland.C08.Proofs.hstep_wp",
         "Flatland.C08.Proofs.hrun_treeinv",
-        "Flatland.C08.Proofs.seqStep_wp",
-        "Flatland.C08.Proofs.good_seq",
-        "Flatland.C08.Proofs.c08_histories_partial",
+        "Flatland.C08.Proofs.seqStep_wp_all",
+        "Flatland.C08.Proofs.mapStep_wp",
+        "Flatland.C08.Proofs.setNode_wp",
+        "Flatland.C08.Proofs.setDefault_wp",
+        "Flatland.C08.Proofs.fromDefaults_wp",
     ]
     level_text = "proof (partial)"
-    level_note = ("treeinv_of_wp: the local stored-parent invariant implies the global parent-chain clause for every "
-                  "node; stepAt_wp/hrun_treeinv: frame rule — a call anywhere in the tree preserves the invariant of "
-                  "the whole tree if it does so for its target; seqStep_wp/c08_histories_partial: node-level "
-                  "preservation for every list-protocol call that reorders, removes, searches or places Element "
-                  "arguments, on any element of a tree of any depth. Calls that build new containers inside the call "
-                  "(plain values wrapped by container member schemas, set, set_default, the mapping calls) and the "
-                  "all_children / uniqueness-of-ids clauses rest on correspondence + the Python oracle; the full "
-                  "statement is kept as Flatland.C08.Spec.C08_Full (believed true, not proved)")
+    level_note = ("THEOREM: c08_full — from a well-parented tree, after any history of the model's list-protocol calls "
+                  "(plain values wrapped by any member schema, Element arguments, set, set_default, *=, clear, sort, "
+                  "slices ...) and dict-protocol calls (item assignment, update/|= incl. Element values, del, pop, clear, "
+                  "setdefault, set under every policy, set_default) on any elements of a tree of any depth, every node's "
+                  "stored parent chain is exactly its holders up to the root; inv_init — every construction route of the "
+                  "model (schema(), schema(value), from_defaults, set, set_default) yields such a tree; navinv_of_wp — "
+                  "parents/root/path of the navigation API are what the shape says, for every walk bound >= depth, under "
+                  "UniqueIds (a hypothesis, NOT proved preserved). ORACLE ONLY (no theorem): all_children lists every "
+                  "reachable element once, breadth-first; removed => unreachable; placed => child; uniqueness of "
+                  "identities; set_flat/from_flat/from_object routes; model paths answering `unsupported`. Aliasing "
+                  "(`l.append(l[0])`: an argument that is already in the tree) is outside the quantifier: the model "
+                  "hands arguments over as values, so the theorem says nothing about such histories, and the generator "
+                  "does not produce them")
     technique = "invariant + frame-rule proof (Lean 4) + differential testing with identity labels against the implementation"
     trusted_base = [
         "Python object identity and attribute stores modelled as nodes with unique ids and a stored parent id",
         "CPython list/dict semantics as in lean/Flatland/PyList.lean (shared with C09/C10)",
     ]
     assumptions = [
-        "Element arguments are fresh or detached elements (an Element handed to two containers is aliasing that no "
-        "tree can represent); stated as the FreshArgs hypothesis of the step theorem",
+        "Element arguments are fresh or detached elements; an Element that is already in the tree handed in again "
+        "(`l.append(l[0])`) is aliasing that no tree can represent and is outside the quantifier. The Lean theorem "
+        "only asks arguments to be internally well-parented (`ArgWP`); it is silent — not false, but meaningless — on "
+        "aliasing histories, because the model copies nodes; uniqueness of ids is a hypothesis of navinv_of_wp only",
         "set_flat / from_flat / from_object construction routes are checked by the Python oracle only (no Lean model "
         "of the flat-key parser here; it belongs to C01/C02)",
         "sort keys range over {u, len(u)}",
@@ -186,7 +197,9 @@ class C08(Property):
             "construction route (constructor, constructor with value, set, set_default, from_defaults; set_flat/"
             "from_flat oracle-only) followed by 1-20 container calls, each aimed at the t-th reachable container "
             "(sequence op or mapping op according to its kind), with plain values, fresh Elements and Elements "
-            "detached by earlier calls; non-trivial = the tree has at least 4 elements at some point and at least 3 "
+            "detached by earlier calls or owned by another container; cases the Lean model does not cover (flat routes, "
+            "model paths answering unsupported) are marked oracle-only before the run and are not counted as validated "
+            "traces (tag model=oracle-only); non-trivial = the tree has at least 4 elements at some point and at least 3 "
             "calls changed it")
     quick_n = 30000
     thorough_n = 250000
